@@ -96,6 +96,36 @@ def main():
     out = dict(counters={}, violations=[], kernels={}, samples=[])
     cnt = out["counters"]
 
+    class LogWatch(object):
+        """sizes of the sanitizer log AND of this process' stderr (redirected to a file): gcc's UBSan runtime prints its
+        'runtime error' reports to fd 2 whatever log_path says, so both are watched; text that is no sanitizer report
+        (python warnings) is dropped"""
+        def __init__(self, logpat):
+            self.files = [logpat, cfg["log_path"] + ".stderr.%d" % os.getpid()]
+            sys.stderr.flush()
+            fd = os.open(self.files[1], os.O_WRONLY | os.O_CREAT | os.O_APPEND, 0o644)
+            os.dup2(fd, 2)
+            os.close(fd)
+            self.pos = [0, 0]
+
+        def sizes(self):
+            return [os.path.getsize(f) if os.path.exists(f) else 0 for f in self.files]
+
+        def mark(self):
+            self.pos = self.sizes()
+
+        def new_text(self):
+            """sanitizer reports written since mark() ('' if none); moves the mark"""
+            txt = ""
+            now = self.sizes()
+            for f, a, b in zip(self.files, self.pos, now):
+                if b > a:
+                    with open(f, errors="replace") as fh:
+                        fh.seek(a)
+                        txt += fh.read()
+            self.pos = now
+            return txt if ("runtime error" in txt or "Sanitizer" in txt) else ""
+
     def count(k, n=1):
         cnt[k] = cnt.get(k, 0) + n
     if mode == "asan":
@@ -105,6 +135,7 @@ def main():
         libc.malloc.argtypes = [C.c_size_t]
         libc.free.argtypes = [C.c_void_p]
         logpat = cfg["log_path"] + ".%d" % os.getpid()
+        watch = LogWatch(logpat)
     elif mode == "vrt":
         v = klib.Vrt()
         lib = v.lib
@@ -122,6 +153,7 @@ def main():
         libc.malloc.argtypes = [C.c_size_t]
         libc.free.argtypes = [C.c_void_p]
         logpat = cfg["log_path"] + ".%d" % os.getpid()
+        watch = LogWatch(logpat)
     else:
         lib = C.CDLL(build.kernel_lib("plain"))
     t0 = time.time()
@@ -174,7 +206,7 @@ def main():
                                 conv[nm] = float(a[1])
                             else:
                                 conv[nm] = int(a)
-                        before = os.path.getsize(logpat) if os.path.exists(logpat) else 0
+                        watch.mark()
                         try:
                             w(*[conv[n] for n in req], **{n: conv[n] for n in opt})
                             count("f2py_calls")
@@ -185,11 +217,8 @@ def main():
                             # for this property to decide; listed so that an interface that refuses everything is seen
                             count("f2py_wrapper_refusals")
                             out.setdefault("f2py_refused", {}).setdefault(spec["fn"], "%s: %s" % (desc, str(e)[:200]))
-                        after = os.path.getsize(logpat) if os.path.exists(logpat) else 0
-                        if after > before:
-                            with open(logpat, errors="replace") as fh:
-                                fh.seek(before)
-                                txt = fh.read()
+                        txt = watch.new_text()
+                        if txt:
                             out["violations"].append(dict(key="pending", what="f2py wrapper " + desc, report=txt[:6000],
                                                           replay=dict(replay, threads=nt)))
                         # output delivery: the same call with ONE output / in-out array given the way callers may hold it
@@ -197,7 +226,7 @@ def main():
                         # accepts, the caller's own array must hold what the ordinary call produced - a wrapper that
                         # fills a temporary copy and drops it leaves the promised output undefined.  One thread only
                         # (multi-thread float reductions differ from run to run).
-                        if nt == 1 and os.path.getsize(logpat) == after if os.path.exists(logpat) else nt == 1:
+                        if nt == 1 and not txt:
                             for nm, a in val.items():
                                 if not (isinstance(a, kspecs.Buf) and a.role in ("out", "inout") and a.arr.size >= 2
                                         and nm in conv and isinstance(conv[nm], np.ndarray)):
@@ -286,14 +315,11 @@ def main():
                                 C.memmove(p, b.arr.ctypes.data, nb)
                                 ptrs.append(p)
                             b._p = p
-                        before = os.path.getsize(logpat) if os.path.exists(logpat) else 0
+                        watch.mark()
                         f(*call_args(spec, ptrs))
                         count("asan_calls")
-                        after = os.path.getsize(logpat) if os.path.exists(logpat) else 0
-                        if after > before:
-                            with open(logpat, errors="replace") as fh:
-                                fh.seek(before)
-                                txt = fh.read()
+                        txt = watch.new_text()
+                        if txt:
                             out["violations"].append(dict(key="pending", what=desc, report=txt[:6000], replay=dict(replay, threads=nt)))
                         for b in bufs:
                             libc.free(b._p)
